@@ -124,8 +124,12 @@ CHECKS = {
            'Table._cast_metadata (entries re-cast with the same items; absent when no entry holds anything). The mapping-file '
            'parser and the add-metadata command are bounded only.', technique=TECH),
  'C19': _b('Every summary / report figure / export equals the value computed from the dense view (non-square tables so '
-           'that axis mix-ups show). Deductive part (Tier A): Table.sum (axis mapping), nnz, get_table_density. One known '
-           'finding (pandas sparse fill value).', technique=TECH),
+           'that axis mix-ups show). Deductive part (Tier A): Table.sum (axis mapping), nnz, get_table_density, '
+           'nonzero_counts (per vector of the requested axis the number of its non-zero cells or, with binary=False, its sum; '
+           'for any other axis value one number for the whole table), min / max (per vector of the requested axis the least / '
+           'greatest non-zero cell, stored zeros eliminated first) - over an assumed contract of iter_data and ghost functions '
+           'for the per-vector quantities. reduce, the count statistics, the CLI reports and the exports are bounded only. One '
+           'known finding (pandas sparse fill value).', technique=TECH),
  'C20': dict(level='proof', technique=TECH,
   text='Every function of biom/err.py is verified against its contract for all inputs (Tier P): _create_error_states, '
        'ErrorProfile._handle_error / test / state setter / setcall / getcall, geterr, seterr, seterrcall, geterrcall, '
